@@ -482,19 +482,38 @@ def gen_tree(rng, nf=0, par=False, max_size=22):
     raise RuntimeError("tree generator exhausted")
 
 
-def churn_recipe(rng):
-    """a product whose operands are sums with fresh integer coefficients (distinct from every earlier one)"""
-    def lin(n):
-        idx = rng.sample(range(4), n)
-        out = None
-        for i in idx:
-            term = ("vscale", ("int", rng.choice([c for c in range(-60, 61) if c not in (0, 1)])), V(i))
-            out = term if out is None else ("vadd", out, term)
-        return out
-    kind = rng.choice(["cross", "cross", "dot", "mixed"])
-    if kind == "mixed":
-        return ("mixed", lin(rng.choice([1, 2])), lin(2), lin(rng.choice([1, 2, 3])))
-    return (kind, lin(rng.choice([2, 3])), lin(rng.choice([1, 2, 3])))
+def churn_recipes(rng, n, run=60):
+    """products whose operands are sums with integer coefficients, all different; in runs of `run` products of the SAME shape (kind, operand
+    positions, symbols) that differ only in the coefficients -- the allocation pattern then repeats, so a freed operand's address is
+    taken by the corresponding operand of the next product"""
+    out = []
+    seen = set()
+    while len(out) < n:
+        kind = rng.choice(["cross", "cross", "dot", "mixed"])
+        nops = 3 if kind == "mixed" else 2
+        shape = []
+        for k in range(nops):
+            if k == 0 or rng.random() < 0.35:
+                shape.append(rng.sample(range(4), rng.choice([2, 3])))      # a sum over these symbols
+            else:
+                shape.append(rng.randrange(4))                             # a bare symbol: lives as long as the series
+        rng.shuffle(shape)
+        for _ in range(run):
+            ops = []
+            for sh in shape:
+                if isinstance(sh, int):
+                    ops.append(V(sh))
+                    continue
+                term = None
+                for i_ in sh:
+                    t_ = ("vscale", ("int", rng.choice([c for c in range(-99, 100) if c not in (0, 1)])), V(i_))
+                    term = t_ if term is None else ("vadd", term, t_)
+                ops.append(term)
+            rec = (kind, *ops)
+            if rec not in seen:
+                seen.add(rec)
+                out.append(rec)
+    return out[:n]
 
 
 def run_churn(recipes, envs_json, batch):
@@ -503,21 +522,21 @@ def run_churn(recipes, envs_json, batch):
     import gc  # pylint: disable=import-outside-toplevel
     from sympy.core.cache import clear_cache  # pylint: disable=import-outside-toplevel
     out = []
+    o = vx.Objs(4, 1)                  # the same four symbols for the whole series
     for i, rec in enumerate(recipes):
-        if i % batch == 0:
+        if batch and i % batch == 0:
             clear_cache()
             gc.collect()
-        r = vtree.process({"id": i, "recipe": rec, "nv": 4, "ns": 1, "mode": "auto", "rank": None, "creation": [0, 1, 2, 3], "envs": envs_json,
-            "trace": False})
+        r = vtree.process({"id": i, "recipe": rec, "nv": 4, "ns": 1, "mode": "auto", "rank": None, "envs": envs_json, "trace": False}, shared=o)
         out.append({k: r.get(k) for k in ("status", "mismatch", "error", "out_str", "statement", "proof")})
     return out
 
 
 def churn(ctx):
     rng = ctx.rng
-    n = ctx.pick(600, 6000)
-    batch = ctx.pick(40, 150)
-    recipes = [churn_recipe(rng) for _ in range(n)]
+    n = ctx.pick(400, 5000)
+    batch = ctx.rng.choice([1, 1, 3])        # reset SymPy's cache and collect garbage after every (third) product
+    recipes = churn_recipes(rng, n)
     envs = [vtree.rand_env(rng, 4, 1, small=False).to_json() for _ in range(2)]
     res = run_churn(recipes, envs, batch)
     bad = 0
